@@ -110,7 +110,7 @@ fn edit_text(rng: &mut Rng, text: &str, around: Option<(usize, usize)>) -> (Stri
 pub fn run(p: &Params, rep: &mut Report) {
     rep.rule = "stores reached by seeded histories of the C01 generator (all selector kinds, begin- and end-aligned offsets, 1-4 byte text); protect_text in each of the four modes; every text-selecting annotation must validate, also after a STAM JSON save and reload, and after adding annotations and protecting again; then 10 (20) edits per store (substitution, insertion, deletion placed before, inside, at the edges of and after a selection; removal of 1-3 characters at the tail or the head of the text) applied to the text inside the serialisation, reload, and the verdict of every annotation compared with whether its selected characters changed. distinct_nontrivial = distinct (stage, mode, text class, length class) and (edit kind, mode, verdict) observed".into();
     rep.assumptions = vec![
-        "which characters an annotation selects in a store is read from the store (text_join), judged by C04/C05".into(),
+        "which characters an annotation selects: the shadow model's answer must equal the store's at protection time (as a multiset of texts); afterwards it is read from the store (text_join)".into(),
         "an edited serialisation that no longer loads is skipped and counted".into(),
         "annotations that select no text (or empty text) carry no validation information and are not judged".into(),
     ];
@@ -143,6 +143,37 @@ pub fn run(p: &Params, rep: &mut Report) {
         }
         if !check_all_valid(rep, &h.store, "after-protect", modename, &ctx) {
             continue;
+        }
+        // what is protected must be the characters that the annotation selects according to the shadow model (a store that
+        // leaves part of an annotation's text out, when protecting and when validating alike, flags no edit of that part)
+        if h.ended.is_none() && !h.model.text_order_unsettled() {
+            let mut differs = false;
+            for (ah, ma) in &h.model.anns {
+                let Some(a) = h.store.annotation(AnnotationHandle::new(*ah)) else { continue };
+                let mut want = h.model.ann_text(ma);
+                want.sort();
+                rep.eval();
+                let got = guard(|| {
+                    let mut v: Vec<String> = a.text().map(|s| s.to_string()).collect();
+                    v.sort();
+                    (v, a.validate_text())
+                });
+                if let Ok((got, verdict)) = got {
+                    rep.distinct(&format!("protected-text-vs-model/{}/{}", ma.target.kind(), modename));
+                    if got != want {
+                        differs = true;
+                        let all_missing = got.is_empty() && verdict.is_none();
+                        rep.violation(
+                            format!("C18/after-protect/protected-text-is-not-the-selected-text/{}/{}", ma.target.kind(), if all_missing { "nothing-protected" } else { "part-protected" }),
+                            json!({"context": ctx, "annotation": h.model.ann_name(*ah), "target": h.model.sel_json(&ma.target), "protected": got, "selected_according_to_the_model": want, "verdict": verdict}),
+                        );
+                        break;
+                    }
+                }
+            }
+            if differs {
+                continue;
+            }
         }
         if rep.samples.len() < 3 {
             rep.sample(json!({"mode": modename, "operations": h.ops.len(), "verdicts_after_protect": verdicts(&h.store).map(|v| v.into_iter().map(|(id, text, verdict)| json!([id, text, verdict])).collect::<Vec<_>>()).unwrap_or_default()}));
